@@ -79,18 +79,20 @@ Theorem C03_symbolic_result_is_tree : forall (T : Type) (f : T -> T -> T) (x : Z
 Proof. exact @sym_eval_reduce_result. Qed.
 Print Assumptions C03_symbolic_result_is_tree.
 
-(* the upward phase for one subtree (both operations): inside any global state in which the existing ranks of the
+(* the upward phase for one subtree (both operations, ANY input buffers xin and ANY continuations kk of the ranks - the call may stand
+   inside a longer program): inside any global state in which the existing ranks of the
    node (l, br) are at their initial program and the channels inside the subtree are empty, the subtree can be
    scheduled - nobody else moves, channels end as they were - until its representative stands at level l with the
    tree value of the node *)
 Theorem C03_subtree_schedule : forall P m target, 0 <= m <= 30 -> 1 <= P <= 2 ^ m -> 0 <= target < P ->
-  forall (da : bool) A2A d l br, l = m - Z.of_nat d -> (d = 0%nat \/ c_SC_REDUCE_ALLTOALL_LEVEL <= l) -> 0 <= l -> 0 <= br ->
+  forall (xin : Z -> payload) (kk : Z -> payload -> prog) (da : bool) A2A d l br,
+  l = m - Z.of_nat d -> (d = 0%nat \/ c_SC_REDUCE_ALLTOALL_LEVEL <= l) -> 0 <= l -> 0 <= br ->
   lft m l br < P ->
-  forall s, (forall r, Sub P m l br r -> pr s r = start P m target da A2A r) -> Subch P m l br s ->
+  forall s, (forall r, Sub P m l br r -> pr s r = start P m target xin kk da A2A r) -> Subch P m l br s ->
   exists n s' KQ, run n s s' /\
-    pr s' (rep m target l br) = rec_gen P m da target A2A (S (Z.to_nat l)) l br (V P m l br) KQ /\
+    pr s' (rep m target l br) = rec_gen P m da target A2A (S (Z.to_nat l)) l br (V P m xin l br) KQ /\
     (forall r, ~ Sub P m l br r -> pr s' r = pr s r) /\ (forall a b t, ch s' a b t = ch s a b t) /\
-    after P m target da l br s' KQ.
+    after P m target kk da l br s' KQ.
 Proof. exact up. Qed.
 Print Assumptions C03_subtree_schedule.
 
@@ -224,6 +226,174 @@ Example C03_schedule_instance :
   sym_eval (fun s r : list Z => r ++ s) (fun i => [i]) 5 (sym_reduce_result 13) = Some ([0; 1; 2; 3; 4; 5; 6; 7; 8; 9; 10; 11; 12], []).
 Proof. split; [apply reduce_one_schedule; split; discriminate || reflexivity | vm_compute; reflexivity]. Qed.
 
+(* ==== HISTORIES: sequences of calls, back to back, no barrier, under every interleaving ACROSS the calls =======================
+   A call c = (c_all, c_target, c_x): sc_allreduce(_custom) or sc_reduce(_custom) to c_target, rank r contributing the buffer
+   named `c_x c r` (ANY payload: buffers of different calls have different lengths, datatypes, operators).  hist_start P cs:
+   rank r < P runs `hist_prog P r cs []` - the calls one after the other, each the LITERAL per-rank program `call_prog`
+   (= rec_prog of C03/ReduceModel.v in continuation form; reduce_prog, the extracted and co-simulated program, is its
+   instance with buffer sym_leaf r and continuation Ret: C03_hist_call_is_reduce_prog), collecting the value of every call in
+   which r is the target or which is an allreduce - from an empty network.  All calls use the same tag, nothing separates them.
+   hist_end P cs: rank r has returned hist_out P r cs = the values `call_result P c` of those calls, in call order, and every
+   channel is empty.  call_result P c = reduce_result payload sym_f P (c_x c): the balanced tree over rank order of THAT call's
+   buffers - no target, no schedule, no other call in it (C03_hist_outputs). *)
+From ScV Require Import C03.ReduceHist.
+
+(* the literal programs, posted-receive semantics (contains every schedule of the blocking semantics): there is n with
+   (1) a schedule of n steps from hist_start to hist_end, and for EVERY schedule prefix run_p m (hist_start P cs) s':
+   (2) m <= n and s' is completed to hist_end in n - m steps, (3) final s' -> s' = hist_end, (4) s' is final or can move *)
+Theorem C03_hist_every_schedule : forall P cs, 1 <= P <= 2 ^ 30 -> Forall (call_ok P) cs ->
+  exists n : nat, run_p n (hist_start P cs) (hist_end P cs) /\
+    forall m s', run_p m (hist_start P cs) s' ->
+      (m <= n)%nat /\ run_p (n - m) s' (hist_end P cs) /\
+      (final s' -> s' = hist_end P cs /\ m = n) /\
+      (final s' \/ exists r s'', step_p s' r s'').
+Proof. exact hist_all_schedules. Qed.
+Print Assumptions C03_hist_every_schedule.
+
+(* histories of sc_reduce / sc_reduce_custom calls (any targets): the literal programs under the BLOCKING semantics of MPI/Sem.v *)
+Theorem C03_hist_reduce_every_schedule : forall P cs, 1 <= P <= 2 ^ 30 -> Forall (call_ok P) cs -> Forall (fun c => c_all c = false) cs ->
+  exists n : nat, run n (hist_start P cs) (hist_end P cs) /\
+    forall m s', run m (hist_start P cs) s' ->
+      (m <= n)%nat /\ run (n - m) s' (hist_end P cs) /\
+      (final s' -> s' = hist_end P cs /\ m = n) /\
+      (final s' \/ exists r s'', step s' r s'').
+Proof. exact hist_reduce_all_schedules. Qed.
+Print Assumptions C03_hist_reduce_every_schedule.
+
+(* any history with the all-to-all windows of its allreduce calls in canonical window order, blocking semantics *)
+Theorem C03_hist_window_every_schedule : forall P cs, 1 <= P <= 2 ^ 30 -> Forall (call_ok P) cs ->
+  exists n : nat, run n (hist_start_w P cs) (hist_end P cs) /\
+    forall m s', run m (hist_start_w P cs) s' ->
+      (m <= n)%nat /\ run (n - m) s' (hist_end P cs) /\
+      (final s' -> s' = hist_end P cs /\ m = n) /\
+      (final s' \/ exists r s'', step s' r s'').
+Proof. exact hist_w_all_schedules. Qed.
+Print Assumptions C03_hist_window_every_schedule.
+
+(* the composition step itself (no axiom): inside ANY longer program - every rank of the communicator stands at the call with
+   its own continuation k r, all channels empty - the call can be scheduled so that the target / every rank continues with the
+   value of the call, the others with something, nobody outside moves and ALL channels are empty again *)
+Theorem C03_hist_one_call : forall P (c : call) (k : Z -> payload -> prog) (s : gs), 1 <= P <= 2 ^ 30 -> call_ok P c ->
+  (forall r, 0 <= r < P -> pr s r = call_prog_w P r c (k r)) ->
+  (forall a b t, ch s a b t = []) ->
+  exists n s', run n s s' /\
+    (forall r, 0 <= r < P -> has_out c r = true -> pr s' r = k r (call_result P c)) /\
+    (forall r, 0 <= r < P -> has_out c r = false -> exists o, pr s' r = k r o) /\
+    (forall r, ~ 0 <= r < P -> pr s' r = pr s r) /\
+    (forall a b t, ch s' a b t = []).
+Proof. exact call_sched. Qed.
+Print Assumptions C03_hist_one_call.
+
+(* what the systems are *)
+Theorem C03_hist_systems : forall P cs,
+  (forall r, 0 <= r < P -> pr (hist_start P cs) r = hist_prog P r cs []) /\
+  (forall r, ~ 0 <= r < P -> pr (hist_start P cs) r = Ret []) /\ (forall a b t, ch (hist_start P cs) a b t = []) /\
+  (forall r, 0 <= r < P -> pr (hist_end P cs) r = Ret (hist_out P r cs)) /\
+  (forall r, ~ 0 <= r < P -> pr (hist_end P cs) r = Ret []) /\ (forall a b t, ch (hist_end P cs) a b t = []) /\
+  (forall me c cs' acc, hist_prog P me (c :: cs') acc = call_prog P me c (fun out => hist_prog P me cs' (acc ++ keep c me out))) /\
+  (forall me acc, hist_prog P me [] acc = Ret acc).
+Proof. exact hist_systems. Qed.
+Print Assumptions C03_hist_systems.
+
+Theorem C03_hist_call_is_reduce_prog : forall P doall target me,
+  reduce_prog P (maxlevel P) doall (if doall then 0 else target) me = call_prog P me (mkcall doall target sym_leaf) (fun d => Ret d) /\
+  (forall c k, call_prog P me c k =
+     rec_prog P (maxlevel P) (c_all c) (if c_all c then 0 else c_target c) (S (Z.to_nat (maxlevel P))) (maxlevel P) me (c_x c me) k).
+Proof. exact hist_call_is_reduce_prog. Qed.
+Print Assumptions C03_hist_call_is_reduce_prog.
+
+(* the outputs: per call its own tree; the target and all ranks of an allreduce keep it *)
+Theorem C03_hist_outputs : forall P me c cs,
+  hist_out P me (c :: cs) = keep c me (call_result P c) ++ hist_out P me cs /\ hist_out P me [] = [] /\
+  keep c me (call_result P c) = (if c_all c || (me =? c_target c) then call_result P c else []) /\
+  call_result P c = reduce_result payload sym_f P (c_x c).
+Proof. exact hist_outputs. Qed.
+Print Assumptions C03_hist_outputs.
+
+(* EVERY CALL RETURNS ITS OWN FOLD, with its own operator on its own type: if the buffers of call c are named by leaves
+   g r (any numbering of all buffers of the history), the value of the call read with ANY operator f on ANY type T and any
+   assignment x of buffers to names is reduce_result T f P (x o g) - for an associative f the fold x (g 0) op .. op x (g (P-1))
+   in rank order (C03_rank_order_fold); `rest` = the values of the later calls, which follow in the output *)
+Theorem C03_hist_call_value : forall (T : Type) (f : T -> T -> T) (x : Z -> T) (g : Z -> Z) P c,
+  (forall r, c_x c r = sym_leaf (g r)) -> forall rest,
+  sym_eval f x (S (Z.to_nat (maxlevel P))) (call_result P c ++ rest) = Some (reduce_result T f P (fun r => x (g r)), rest).
+Proof. exact @call_result_eval. Qed.
+Print Assumptions C03_hist_call_value.
+
+(* a rank that has returned has returned the values of ITS calls - in every reachable state, wherever the other ranks are *)
+Theorem C03_hist_finished_rank : forall P cs, 1 <= P <= 2 ^ 30 -> Forall (call_ok P) cs ->
+  forall m s' r out, run_p m (hist_start P cs) s' -> 0 <= r < P -> pr s' r = Ret out -> out = hist_out P r cs.
+Proof. exact hist_finished_rank. Qed.
+Print Assumptions C03_hist_finished_rank.
+
+(* the literal history is the window-order history with sends moved behind receives posted before them *)
+Theorem C03_hist_window_form : forall P me cs acc, nbeq (hist_prog P me cs acc) (hist_prog_w P me cs acc).
+Proof. exact hist_prog_nbeq. Qed.
+Print Assumptions C03_hist_window_form.
+
+(* non-vacuity: 13 ranks, reduce to 7 / allreduce / reduce to 0 / reduce to 12 / allreduce; and a fast rank: three ranks,
+   reduce to 2 twice (different buffers), reduce to 1, allreduce: rank 0 is four calls ahead, channel 0 -> 2 holds the
+   messages of calls 1, 2 and 4 while rank 2 waits at its first receive of call 1 *)
+Example C03_hist_instance :
+  (exists n, run_p n (hist_start 13 ex_hist) (hist_end 13 ex_hist) /\ terminal_for_p (hist_start 13 ex_hist) (hist_end 13 ex_hist) n) /\
+  (let cat := fun (s r : list Z) => r ++ s in
+   let one := fun i : Z => [i] in
+   pr (hist_end 13 ex_hist) 7 = Ret (call_result 13 (nth 0 ex_hist (mkcall true 0 (leaves 0))) ++
+                                     call_result 13 (nth 1 ex_hist (mkcall true 0 (leaves 0))) ++
+                                     call_result 13 (nth 4 ex_hist (mkcall true 0 (leaves 0)))) /\
+   sym_eval cat one 5 (call_result 13 (nth 1 ex_hist (mkcall true 0 (leaves 0)))) =
+     Some ([100; 101; 102; 103; 104; 105; 106; 107; 108; 109; 110; 111; 112], [])) /\
+  pr (hist_end 13 ex_hist) 3 = Ret (call_result 13 (mkcall true 0 (leaves 1)) ++ call_result 13 (mkcall true 0 (leaves 4))).
+Proof. exact ex_hist_schedules. Qed.
+
+Example C03_hist_fast_rank :
+  exists s', run 5 (hist_start_w 3 ex_fast) s' /\
+    ch s' 0 2 c_SC_TAG_REDUCE = [[0; 0]; [0; 100; 7; 7; 7]; [0; 300]] /\
+    (exists k, pr s' 2 = Do (Recv 0 c_SC_TAG_REDUCE) k) /\
+    (exists n, run n s' (hist_end 3 ex_fast)) /\
+    pr (hist_end 3 ex_fast) 2 =
+      Ret (sym_f (sym_leaf 2) (sym_f (sym_leaf 1) (sym_leaf 0)) ++
+           sym_f [0; 102; 7; 7; 7] (sym_f [0; 101; 7; 7; 7] [0; 100; 7; 7; 7]) ++
+           sym_f (sym_leaf 302) (sym_f (sym_leaf 301) (sym_leaf 300))).
+Proof. exact ex_fast_rank. Qed.
+
+(* REUSE OF OUTPUTS: the k-th call of every rank is computed from what the rank has collected so far (dhist_prog: `c acc`); the
+   ranks must agree on the kind and the target of each call (dhist_ok, judged with the values the calls really deliver); the
+   buffer of rank r is the one rank r computes from ITS outputs.  Literal programs, posted-receive semantics, every schedule. *)
+Theorem C03_hist_reuse_every_schedule : forall P cs, 1 <= P <= 2 ^ 30 -> dhist_ok P cs (fun _ => []) ->
+  exists n : nat, run_p n (dhist_start P cs) (dhist_end P cs) /\
+    forall m s', run_p m (dhist_start P cs) s' ->
+      (m <= n)%nat /\ run_p (n - m) s' (dhist_end P cs) /\
+      (final s' -> s' = dhist_end P cs /\ m = n) /\
+      (final s' \/ exists r s'', step_p s' r s'').
+Proof. exact dhist_all_schedules. Qed.
+Print Assumptions C03_hist_reuse_every_schedule.
+
+Theorem C03_hist_reuse_systems : forall P cs,
+  (forall r, 0 <= r < P -> pr (dhist_start P cs) r = dhist_prog P r cs []) /\
+  (forall r, ~ 0 <= r < P -> pr (dhist_start P cs) r = Ret []) /\ (forall a b t, ch (dhist_start P cs) a b t = []) /\
+  (forall r, 0 <= r < P -> pr (dhist_end P cs) r = Ret (dhist_out P cs (fun _ => []) r)) /\
+  (forall r, ~ 0 <= r < P -> pr (dhist_end P cs) r = Ret []) /\ (forall a b t, ch (dhist_end P cs) a b t = []) /\
+  (forall me c cs' acc, dhist_prog P me (c :: cs') acc = call_prog P me (c acc) (fun out => dhist_prog P me cs' (acc ++ keep (c acc) me out))) /\
+  (forall me acc, dhist_prog P me [] acc = Ret acc) /\
+  (forall c cs' acc, dhist_out P (c :: cs') acc = dhist_out P cs' (fun r => acc r ++ keep (resolve acc c) r (call_result P (resolve acc c)))) /\
+  (forall acc, dhist_out P [] acc = acc) /\
+  (forall c cs' acc, dhist_ok P (c :: cs') acc <->
+     (forall r, 0 <= r < P -> c_all (c (acc r)) = c_all (c (acc 0)) /\ c_target (c (acc r)) = c_target (c (acc 0))) /\ call_ok P (resolve acc c) /\
+     dhist_ok P cs' (fun r => acc r ++ keep (resolve acc c) r (call_result P (resolve acc c)))) /\
+  (forall acc c, resolve acc c = mkcall (c_all (c (acc 0))) (c_target (c (acc 0))) (fun r => c_x (c (acc r)) r)).
+Proof. exact dhist_systems. Qed.
+Print Assumptions C03_hist_reuse_systems.
+
+(* 5 ranks: allreduce; reduce to 3 of buffers built from the first result; allreduce of everything collected so far *)
+Example C03_hist_reuse_instance :
+  (exists n, run_p n (dhist_start 5 ex_dhist) (dhist_end 5 ex_dhist) /\ terminal_for_p (dhist_start 5 ex_dhist) (dhist_end 5 ex_dhist) n) /\
+  (let r1 := call_result 5 (mkcall true 0 (leaves 0)) in
+   let r2 := call_result 5 (mkcall false 3 (fun r => r :: r1)) in
+   let r3 := call_result 5 (mkcall true 0 (fun r => if r =? 3 then r1 ++ r2 else r1)) in
+   pr (dhist_end 5 ex_dhist) 3 = Ret (r1 ++ r2 ++ r3) /\ pr (dhist_end 5 ex_dhist) 0 = Ret (r1 ++ r3)).
+Proof. exact ex_dhist_schedules. Qed.
+
 (* ===== tie T1: the per-rank model computes what the definitions GENERATED from /repo/src/sc_reduce.c compute =============== *)
 (* Gen/ReduceC03.v is regenerated from the working tree on every run (tools/c2g/groups_C03.py); an edit of the arithmetic in
    sc_reduce.c changes a generated definition and the statements below stop checking.  B30 = 2^30. *)
@@ -315,9 +485,10 @@ Theorem C03_gen_a2a_msgs : forall peer target tag, (a2a_recv_peer peer target ta
 Proof. exact gen_a2a_msgs. Qed.
 Print Assumptions C03_gen_a2a_msgs.
 
-(* slot i at byte offset i * datasize; reduce_fn (slot (2 i + 1) << shift, slot (2 i) << shift); buffer sizes *)
-Theorem C03_gen_a2a_offsets : forall i shift sz allcount request, 0 <= i -> 0 <= shift <= 30 -> (2 * i + 1) * 2 ^ shift <= B30 -> 0 <= sz -> (2 * i + 1) * 2 ^ shift * sz < 2 ^ 62 ->
-  0 <= allcount <= B30 -> allcount * sz < 2 ^ 62 ->
+(* slot i at byte offset i * datasize; reduce_fn (slot (2 i + 1) << shift, slot (2 i) << shift); buffer sizes.  size_t arithmetic: exact
+   as long as the products are below 2^64 - the full range of the type *)
+Theorem C03_gen_a2a_offsets : forall i shift sz allcount request, 0 <= i -> 0 <= shift <= 30 -> (2 * i + 1) * 2 ^ shift <= B30 -> 0 <= sz -> (2 * i + 1) * 2 ^ shift * sz < 2 ^ 64 ->
+  0 <= allcount <= B30 -> allcount * sz < 2 ^ 64 ->
   a2a_recv_offset i sz = i * sz /\ a2a_self_offset i sz = i * sz /\
   a2a_combine_send_offset i shift sz = ((2 * i + 1) * 2 ^ shift) * sz /\ a2a_combine_recv_offset i shift sz = ((2 * i) * 2 ^ shift) * sz /\
   a2a_alldata_bytes allcount sz = allcount * sz /\ a2a_requests request allcount = (request, request + allcount).
@@ -402,3 +573,165 @@ Print Assumptions C03_gen_kernel_sum_wide.
 Theorem C03_gen_datasize : forall count ts, 0 <= count < 2 ^ 31 -> 0 <= ts < 2 ^ 31 -> rec_datasize count ts = count * ts.
 Proof. exact gen_datasize. Qed.
 Print Assumptions C03_gen_datasize.
+
+(* ===== WHOLE BUFFERS: the operator sees the caller's whole buffers with the caller's count and datatype, once per tree node ===========
+   In the model one application of sym_f stands for one call of reduce_fn on two whole buffers.  The statements below tie that reading
+   to the source: every call of reduce_fn in sc_reduce_recursive / sc_reduce_alltoall has (whole buffer, whole buffer, count, datatype)
+   with count / datatype / data never assigned in those functions and handed unchanged from the entry points down to every level. *)
+
+(* the operator is applied exactly P - 1 times in the tree (treeval read with T = Z, inputs 0, f s r = r + s + 1): once per node with two
+   existing children; and at every node: (existing ranks under the node) - 1 *)
+Theorem C03_operator_applications : forall P, 1 <= P -> reduce_result Z (fun s r => r + s + 1) P (fun _ => 0) = P - 1.
+Proof. exact reduce_applications. Qed.
+Print Assumptions C03_operator_applications.
+
+Theorem C03_operator_applications_every_node : forall P d br M, 0 <= br -> br * 2 ^ Z.of_nat d < P -> Z.of_nat d <= M ->
+  treeval Z (fun s r => r + s + 1) P M (fun _ => 0) d br = Z.of_nat (nleaves P d br - 1).
+Proof. exact node_applications. Qed.
+Print Assumptions C03_operator_applications_every_node.
+
+(* sc_reduce_recursive: exactly one call reduce_fn (sendbuf, recvbuf, count, datatype) in either branch - (peerdata, data) if myrank < peer,
+   else (data, peerdata) followed by memcpy (data, peerdata, datasize): outputs (called, arg0..3) x 2, memcpy (called, dst, src, n) *)
+Theorem C03_gen_rec_combine_args : forall myrank peer data peerdata sz count dt,
+  rec_combine_args myrank peer data peerdata sz count dt =
+  if myrank <? peer then (1, peerdata, data, count, dt, 0, 0, 0, 0, 0, 0, 0, 0, 0)
+  else (0, 0, 0, 0, 0, 1, data, peerdata, count, dt, 1, data, peerdata, sz).
+Proof. exact gen_rec_combine_args. Qed.
+Print Assumptions C03_gen_rec_combine_args.
+
+(* the recursive call, the all-to-all call and the first call from sc_reduce_custom_dispatch hand on (data, count, datatype) as they are *)
+Theorem C03_gen_bufs : forall data count dt,
+  rec_recurse_bufs data count dt = (data, count, dt) /\ rec_a2a_bufs data count dt = (data, count, dt) /\
+  dispatch_bufs data count dt = (data, count, dt).
+Proof. exact gen_bufs. Qed.
+Print Assumptions C03_gen_bufs.
+
+(* buffer, item count and datatype of the four messages of the recursion - `count` items of `datatype`, the function's own parameters,
+   for EVERY count and datatype (no size guard since the repair of F-C03e); peerdata has datasize bytes (exact below 2^64) *)
+Theorem C03_gen_rec_msg_bufs : forall data peerdata count dt sz, 0 <= sz < 2 ^ 64 ->
+  (rec_msg1_buf data peerdata, rec_msg1_count count, rec_msg1_type dt) = (peerdata, count, dt) /\
+  (rec_msg2_buf data peerdata, rec_msg2_count count, rec_msg2_type dt) = (data, count, dt) /\
+  (rec_msg3_buf data peerdata, rec_msg3_count count, rec_msg3_type dt) = (data, count, dt) /\
+  (rec_msg4_buf data peerdata, rec_msg4_count count, rec_msg4_type dt) = (data, count, dt) /\
+  rec_peerdata_bytes sz = sz.
+Proof. exact gen_rec_msg_bufs. Qed.
+Print Assumptions C03_gen_rec_msg_bufs.
+
+(* the bytes that travel: count items of ts bytes = count * ts = datasize, the size the buffers are made for, for every int count >= 0 *)
+Theorem C03_gen_msg_travel_bytes : forall count ts, 0 <= count < 2 ^ 31 -> 0 <= ts < 2 ^ 31 ->
+  rec_msg1_count count * ts = rec_datasize count ts /\ rec_msg2_count count * ts = rec_datasize count ts /\
+  rec_msg3_count count * ts = rec_datasize count ts /\ rec_msg4_count count * ts = rec_datasize count ts.
+Proof. exact gen_msg_travel_bytes. Qed.
+Print Assumptions C03_gen_msg_travel_bytes.
+
+(* what is left of size arithmetic is size_t and EXACT on the whole range of the inputs: every count in [0, 2^31), every element size up
+   to 16 bytes, every window of up to 2^28 slots (the code: at most 2^SC_REDUCE_ALLTOALL_LEVEL = 8): datasize < 2^35, all offsets and
+   the size of alldata below 2^63, nothing wraps *)
+Theorem C03_gen_sizes_exact : forall count ts i shift allcount request, 0 <= count < 2 ^ 31 -> 0 <= ts <= 16 -> 0 <= i -> 0 <= shift <= 30 ->
+  (2 * i + 1) * 2 ^ shift < allcount -> allcount <= 2 ^ 28 ->
+  let sz := rec_datasize count ts in
+  sz = count * ts /\ 0 <= sz < 2 ^ 35 /\ allcount * sz < 2 ^ 63 /\
+  a2a_recv_offset i sz = i * sz /\ a2a_self_offset i sz = i * sz /\
+  a2a_combine_send_offset i shift sz = ((2 * i + 1) * 2 ^ shift) * sz /\ a2a_combine_recv_offset i shift sz = ((2 * i) * 2 ^ shift) * sz /\
+  a2a_alldata_bytes allcount sz = allcount * sz /\ rec_peerdata_bytes sz = sz /\ a2a_requests request allcount = (request, request + allcount).
+Proof. exact gen_sizes_exact. Qed.
+Print Assumptions C03_gen_sizes_exact.
+
+(* the WHOLE body of the posting loop of sc_reduce_alltoall.  Outputs: memcpy (called, dst, src, n), Irecv (called, buf, count, datatype,
+   source, tag, comm, request slot), Isend (the same), then rrequest[i] and srequest[i] after the turn (r0, s0 = not assigned here).
+   The messages are (count, datatype), unguarded; the slot offset i * datasize is size_t, exact below 2^64 *)
+Theorem C03_gen_a2a_post_body : forall m level i target myrank P (doall : bool) alldata data sz rreq sreq comm tag count dt ri si r0 s0,
+  0 <= i <= B30 -> 0 <= sz -> i * sz < 2 ^ 64 ->
+  let peer := sc_search_bias m level i target in
+  let slot := alldata + i * sz in
+  let null := a2a_request_null in
+  a2a_post_body m level i target myrank P (b2z doall) alldata data sz rreq sreq comm tag count dt ri si r0 s0 =
+  if peer =? myrank then (1, slot, data, sz, 0, 0, 0, 0, 0, 0, 0, 0, 0, 0, 0, 0, 0, 0, 0, 0, null, null)
+  else if peer <? P then
+    if doall then (0, 0, 0, 0, 1, slot, count, dt, peer, tag, comm, rreq + i, 1, data, count, dt, peer, tag, comm, sreq + i, r0, s0)
+    else (0, 0, 0, 0, 1, slot, count, dt, peer, tag, comm, rreq + i, 0, 0, 0, 0, 0, 0, 0, 0, r0, null)
+  else (0, 0, 0, 0, 0, 0, 0, 0, 0, 0, 0, 0, 0, 0, 0, 0, 0, 0, 0, 0, null, null).
+Proof. exact gen_a2a_post_body. Qed.
+Print Assumptions C03_gen_a2a_post_body.
+
+(* one turn of the MODEL's posting loop written with the generated body alone *)
+Theorem C03_gen_a2a_post_step_body : forall P m (doall : bool) target i rest level myrank data sl k alldata dptr sz rreq sreq comm count dt ri si r0 s0,
+  0 <= i <= B30 -> 0 <= sz -> i * sz < 2 ^ 64 ->
+  a2a_post P m doall target (i :: rest) level myrank data sl k =
+  let '(mc, _, _, _, rc, _, _, _, rpeer, rtag, _, _, sc, _, _, _, speer, stag, _, _, _, _) :=
+    a2a_post_body m level i target myrank P (b2z doall) alldata dptr sz rreq sreq comm c_SC_TAG_REDUCE count dt ri si r0 s0 in
+  if mc =? 1 then a2a_post P m doall target rest level myrank data (supd sl i data) k
+  else if rc =? 1 then
+    recv rpeer rtag (fun v => if sc =? 1 then send speer stag data (a2a_post P m doall target rest level myrank data (supd sl i v) k)
+                              else a2a_post P m doall target rest level myrank data (supd sl i v) k)
+  else a2a_post P m doall target rest level myrank data sl k.
+Proof. exact gen_a2a_post_step_body. Qed.
+Print Assumptions C03_gen_a2a_post_step_body.
+
+(* the loop header `for (i = 0; i < allcount; ++i)` run with the generated init / cond / next gives the model's index list 0 .. 2^level - 1 *)
+Theorem C03_gen_a2a_post_indices : forall level, 0 <= level <= 30 ->
+  gen_post_indices (S (Z.to_nat (a2a_allcount level))) a2a_post_init (a2a_allcount level) = map Z.of_nat (seq 0 (Z.to_nat (2 ^ level))).
+Proof. exact gen_a2a_post_indices. Qed.
+Print Assumptions C03_gen_a2a_post_indices.
+
+(* request array: 2 * allcount entries; receive slot i = request + i, send slot i = request + allcount + i; Waitall (allcount, rrequest) *)
+Theorem C03_gen_a2a_requests : forall request allcount i, 0 <= allcount <= B30 / 4 ->
+  a2a_request_bytes allcount = (2 * allcount) * 4 /\
+  a2a_wait_recvs allcount (fst (a2a_requests request allcount)) = (1, allcount, request) /\
+  fst (a2a_requests request allcount) + i = request + i /\ snd (a2a_requests request allcount) + i = request + allcount + i.
+Proof. exact gen_a2a_requests. Qed.
+Print Assumptions C03_gen_a2a_requests.
+
+(* the end of the collecting branch: (Waitall called, count, requests) - only for allreduce, on the SEND requests, before -
+   memcpy (called, data, alldata, datasize), free (alldata), free (request) *)
+Theorem C03_gen_a2a_finish : forall allcount rreq sreq (doall : bool) data alldata sz request mpiret wret,
+  a2a_finish allcount rreq sreq (b2z doall) data alldata sz request mpiret wret =
+  (b2z doall, (if doall then allcount else 0), (if doall then sreq else 0), 1, data, alldata, sz, 1, alldata, 1, request).
+Proof. exact gen_a2a_finish. Qed.
+Print Assumptions C03_gen_a2a_finish.
+
+(* sc_reduce_alltoall: reduce_fn (slot (2 i + 1) * 2^shift, slot (2 i) * 2^shift, count, datatype) - whole slots of datasize bytes *)
+Theorem C03_gen_a2a_combine_args : forall alldata i shift sz count dt, 0 <= i -> 0 <= shift <= 30 -> (2 * i + 1) * 2 ^ shift <= B30 -> 0 <= sz ->
+  (2 * i + 1) * 2 ^ shift * sz < 2 ^ 64 ->
+  a2a_combine_args alldata i shift sz count dt =
+  (1, alldata + ((2 * i + 1) * 2 ^ shift) * sz, alldata + ((2 * i) * 2 ^ shift) * sz, count, dt).
+Proof. exact gen_a2a_combine_args. Qed.
+Print Assumptions C03_gen_a2a_combine_args.
+
+(* a rank that does not collect: Send (data, count, datatype, target, SC_TAG_REDUCE, mpicomm), once - for every count and datatype *)
+Theorem C03_gen_a2a_send_whole : forall data count dt target comm tag ret,
+  a2a_send_whole data count dt target comm tag ret = (1, data, count, dt, target, tag, comm).
+Proof. exact gen_a2a_send_whole. Qed.
+Print Assumptions C03_gen_a2a_send_whole.
+
+(* sc_reduce_custom_dispatch: memcpy (recvbuf, sendbuf, sendcount * sizeof (sendtype)) *)
+Theorem C03_gen_dispatch_copy : forall sendbuf recvbuf count ts, 0 <= count < 2 ^ 31 -> 0 <= ts < 2 ^ 31 ->
+  dispatch_copy sendbuf recvbuf count ts = (1, recvbuf, sendbuf, count * ts).
+Proof. exact gen_dispatch_copy. Qed.
+Print Assumptions C03_gen_dispatch_copy.
+
+(* the four entry points and sc_reduce_dispatch: target -1 exactly for the allreduce variants, everything else handed down unchanged *)
+Theorem C03_gen_entries : forall sendbuf recvbuf count dt op target comm,
+  entry_allreduce sendbuf recvbuf count dt op comm = (sendbuf, recvbuf, count, dt, op, -1, comm) /\
+  entry_reduce sendbuf recvbuf count dt op target comm = (sendbuf, recvbuf, count, dt, op, target, comm) /\
+  entry_allreduce_custom sendbuf recvbuf count dt comm = (sendbuf, recvbuf, count, dt, -1, comm) /\
+  entry_reduce_custom sendbuf recvbuf count dt target comm = (sendbuf, recvbuf, count, dt, target, comm) /\
+  entry_reduce_dispatch sendbuf recvbuf count dt target comm = (sendbuf, recvbuf, count, dt, target, comm).
+Proof. exact gen_entries. Qed.
+Print Assumptions C03_gen_entries.
+
+(* sc_reduce_dispatch: (operation, kernel) with 0 MAX / sc_reduce_max, 1 MIN / sc_reduce_min, 2 SUM / sc_reduce_sum *)
+Theorem C03_gen_op_table : reduce_op_table = [(0, 0); (1, 1); (2, 2)].
+Proof. exact gen_op_table. Qed.
+Print Assumptions C03_gen_op_table.
+
+(* F-C03e (repaired): regression guard about the OLD call arguments.  The byte count datasize went through MPI's int count, i.e. through
+   s32: for 2^29 + 1 doubles datasize = 4294967304 but s32 datasize = 8 (every message carried 8 bytes, the call returned a wrong sum);
+   for 2^30 shorts s32 datasize = -2147483648 (MPI_ERR_COUNT).  The repaired calls carry count items = datasize bytes for these inputs. *)
+Theorem C03_gen_msg_bytes_old_refuted :
+  let sz := rec_datasize 536870913 8 in
+  sz = 4294967304 /\ s32 sz = 8 /\ s32 sz <> sz /\
+  s32 (rec_datasize 1073741824 2) = -2147483648 /\
+  rec_msg3_count 536870913 * 8 = sz /\ rec_msg3_count 1073741824 * 2 = rec_datasize 1073741824 2.
+Proof. exact gen_msg_bytes_old_refuted. Qed.
+Print Assumptions C03_gen_msg_bytes_old_refuted.
